@@ -14,6 +14,17 @@ THEOREMS = [
     'CpProofs.C14.C14_sweep_exact_file',
     'CpProofs.C14.C14_boundary_tick',
     'CpProofs.C14.C14_torn_file',
+    'CpProofs.C14.torn_prefix_benign',
+    'CpProofs.C14.whole_file_loads',
+    'CpProofs.C14.C14_expired_dead',
+    'CpProofs.C14.request_dead',
+    'CpProofs.C14.C14_no_resurrection',
+    'CpProofs.C14.C14_delete_dead',
+    'CpProofs.C14.C14_delete_full_false_before_fix',
+    'CpProofs.C14.C14_regenerate_dead',
+    'CpProofs.C14.C14_damaged_full_false',
+    'CpProofs.C14.C14_sweep_abort_witness',
+    'CpProofs.C14.C14_damaged_partial',
 ]
 TRUSTED_BASE = [
     'pickle is a parameter of the model: the torn-file theorem is relative to the contract "a proper prefix of a '
@@ -28,9 +39,26 @@ ASSUMPTIONS = [
     'the clock is monotone; one tick = one minute, expiry arithmetic is exact on ticks',
 ]
 LEVEL = 'proof'
-TECHNIQUE = ''
-LEVEL_TEXT = ''
-LEVEL_NOTE = ''
+TECHNIQUE = ('Lean 4 proof: invariants over every store state and induction over the operation list (all histories, '
+             'cookies, handler scripts, clock positions, both backends), pickle as a parameter with a measured '
+             'contract; model tied to cherrypy.lib.sessions by a differential history run through in-process WSGI')
+LEVEL_TEXT = ('Proved in Lean for every store state / history / cookie / handler script: the response id is the presented one '
+              'only if the store held it, otherwise drawn from the id source and not live (no fixation; unknown ids are '
+              'replaced given the client cannot guess a urandom value); the regeneration loop ends for an injective source; '
+              'a saved record survives every history of other traffic, sweeps and clock advances up to its expiry and is '
+              'what the next request presenting the id reads (RAM: strictly before expiry, the one-tick boundary is a '
+              'lemma); once nothing returnable is stored under an id (expired, deleted, regenerated, torn) it stays so '
+              'through every history and requests presenting it read nothing until one of them writes; delete() and '
+              'regenerate() leave nothing under the old id; both sweeps remove exactly the expired entries; relative to '
+              'the measured pickle contract every truncation of a saved file is an absent session, no request is answered '
+              '500 and the sweep runs to the end.  Partial: for damaged files that are not truncations the statement is '
+              'proved false (F14d: other exception classes propagate) and proved under the hypothesis that excludes them; '
+              'the statement about delete() is proved false for the code before fix 8042c0e and true after.')
+LEVEL_NOTE = ('Trusted: Lean kernel (axioms propext, Classical.choice, Quot.sound only), the hand model '
+              'lean/CpModel/SessionStore.lean as validated by the differential run (status, response id numbered by '
+              'id-source draw, handler reads, cookie expiry flag and the complete store listing with expiry ticks after '
+              'every operation), the harness.  pickle, os.urandom, filelock and the file system are parameters; locks and '
+              'the Monitor thread are out of scope (C13, C20).')
 RULE = ('random histories (<= 40 operations counting handler statements) over 1-4 clients x {RAM, file} x timeout '
         '{1,2,3} ticks: requests with no / own / stale / foreign / unknown / malformed (lock-file name, upper-cased, '
         'path alias, prefix, empty, directory-escaping) cookie whose handler reads, writes picklable values, deletes '
